@@ -508,7 +508,15 @@ func (e *Engine) verifyFunc(c *Contract) *VC {
 			vc.cover(r.s, fmt.Sprintf("cover-ret%d.", ri+1), "true", fi.Decl.Pos(), fmt.Sprintf("return %d of %s is reachable", ri+1, c.Key))
 		}
 		for i, en := range c.Ensures {
+			miss := ""
+			renv.missingLocal = &miss
 			t := renv.evalBool(en.E)
+			if miss != "" && renv.err == nil {
+				// the clause talks about a local variable that is not live at this return
+				e.dropped["postcondition over a local variable skipped at a return where it is not in scope"]++
+				side2 = side2[:0]
+				continue
+			}
 			if renv.err != nil {
 				vc.failed = fmt.Errorf("%s: ensures %q: %v", c.Key, en.Text, renv.err)
 				return vc
